@@ -21,6 +21,15 @@ PROPS = {
         assumptions=COMMON_ASSUME + ["time is driven through CommandExecutor::set_time / update_time_readonly / evict_expired_direct with a fixed epoch; release flavour (debug assertions of the repo are not part of this property)"],
         legs=[leg("model", "c01-model", "rel", quick=6, thorough=16)],
     ),
+    "C03": dict(
+        level="exploration",
+        technique="runtime monitor: differential twins - the same operation sequence with the same per-operation entry path (generic / fast / pooled / batch) and the same manual clock on a 1-shard and an N-shard ShardedActorState; replies and the full visible keyspace compared after every step",
+        level_text="Sequences of 3-50 operations over 10 key names (hash-tagged, short, long) mixing plain GET/SET through every entry point of ShardedActorState (execute, fast_get/fast_set, pooled_fast_get/set, fast_batch_get/set_pipeline, also as multi-key batches) with the whole C01 command set on the same keys, multi-key commands (MGET/MSET/MSETNX/DEL/UNLINK/EXISTS with duplicates), two-key commands (RENAME/RENAMENX/RPOPLPUSH/LMOVE), keyspace-wide commands (KEYS, DBSIZE, FLUSHALL, full SCAN walks with COUNT 3 and MATCH) and clock advances are run on twins with 1 and N in {2,3,4,16} shards driven by one manual clock. Each reply (unordered replies as multisets) and, after every step, the visible keyspace (KEYS, TYPE, value, PTTL through the generic path; a key listed twice counts) must be identical; the first divergent step is shrunk and named.",
+        level_note="SPOP and RANDOMKEY are not generated (their choice legitimately differs between two instances); the connection-level fast path and batch collectors cannot engage on the pinned tree (see C04), so path mixing is driven at the ShardedActorState API where those paths are public; the per-step snapshot uses generic commands that fan out to all shards",
+        rule="case = one operation sequence on one (1, N) twin pair; distinct_nontrivial = distinct (command, entry path, reply kind) triples observed; ops = operations compared (each with a keyspace comparison)",
+        assumptions=COMMON_ASSUME + ["both twins share one ManualTime clock (TimeSource trait), current-thread runtime"],
+        legs=[leg("twin", "c03-twin", "rel", quick=4, thorough=16)],
+    ),
     "C04": dict(
         level="exploration",
         technique="runtime monitor: production connection handler (hook H1) driven over a scripted stream with chosen read segmentation; replies decoded by an independent RESP decoder and compared with a one-command-at-a-time twin; malformed-frame corpus watched for silence, hang, crash",
